@@ -104,6 +104,10 @@ func vfC08Cases() []vfC08Case {
 			for i := 0; i < vfPick(12, 150); i++ {
 				add(vfC08Case{Scenario: "authmal", Variant: vi, Target: tgt, Gen: "authmal", Idx: i})
 			}
+			// unauthenticated ChangeCipherSpec records, one for every epoch value: outside a handshake they announce nothing
+			if nm := vs[vi].Name; nm == "12-ecdsa" || nm == "12-cid44" || nm == "13-direct" || vfThorough() {
+				add(vfC08Case{Scenario: "est", Variant: vi, Target: tgt, Gen: "ccs-sweep", Idx: 0})
+			}
 		}
 	}
 	for vi := range vs {
@@ -389,15 +393,29 @@ func vfC08Established(res *vfResult, c vfC08Case, v vfVariant) {
 			b = vfGenRecordGrammar(r, nb, vfCommon(target.Conn).LocalConnectionID(), uint64(r.IntN(1000)), vfThorough())
 		case "mutate":
 			b = vfGenMutateGenuine(r, nb, genuine)
+		case "ccs-sweep":
+			for round := 0; round < 2; round++ {
+				for e := 1; e <= 0xffff; e++ {
+					b = append(b, vfHostile{Data: []byte{20, 0xfe, 0xfd, byte(e >> 8), byte(e), 0, byte(round + 1), 0, 0, byte(e >> 8), byte(e), 0, 1, 1}})
+				}
+			}
 		}
 		vfClassify(b, is13, cidLen)
+		if c.Gen == "ccs-sweep" {
+			for i := range b {
+				b[i].Class = "forged-change-cipher-spec"
+			}
+		}
 	}
 	classes := map[string]int{}
 	before := len(n.Emissions(target.Name))
-	for _, h := range b {
+	for i, h := range b {
 		classes[h.Class]++
 		res.Count("injected/"+h.Class, 1)
 		n.Deliver(string(target.EP.addr), h.Data, vfAddrOf(peer.Name))
+		if i%512 == 511 {
+			synctest.Wait() // long batches are fed at the pace the endpoint reads
+		}
 	}
 	time.Sleep(20 * time.Millisecond)
 	synctest.Wait()
